@@ -247,7 +247,12 @@ func runC13(ctx *core.Ctx, idx int) *core.Result {
 			for k := 0; k < 1+r.Intn(3); k++ {
 				var ok bool
 				var nd *gen.Change
-				switch r.Intn(6) {
+				switch r.Intn(7) {
+				case 6:
+					nd, ok = gen.Respace(d, r)
+					if ok {
+						words = append(words, "respace")
+					}
 				case 0:
 					nd, ok = gen.RenameMetas(d, r)
 					if ok {
